@@ -214,12 +214,15 @@ package inference
 //@ func (*DeterminedVal).copy
 //@ prop C06 C03
 //@ requires (not (= e nil))
-//@ ensures fresh-copy (and (is result *DeterminedVal) (fresh (as result *DeterminedVal)) (= (. (as result *DeterminedVal) Bool) e.Bool))
+//@ modifies (obj e)
+//@ ensures fresh-copy (and (is result *DeterminedVal) (fresh (as result *DeterminedVal)) (not (= (as result *DeterminedVal) nil)) (= (. (as result *DeterminedVal) Bool) (old e.Bool)))
+//@ ensures others-untouched (forall ((d *DeterminedVal)) (=> (allocated-before d) (= (deref d) (old (deref d)))))
 
 //@ func (*UndeterminedVal).copy
 //@ prop C06 C03
 //@ requires (and (not (= e nil)) (omInv e.Implicants) (omInv e.Implicates))
-//@ modifies (obj e.Implicates) (map e.Implicates.inner) (elems e.Implicates.Pairs) (obj (omPair e.Implicates 0))
+//@ modifies (obj e) (obj e.Implicates) (map e.Implicates.inner) (elems e.Implicates.Pairs) (obj (omPair e.Implicates 0))
+//@ ensures others-untouched (forall ((d *UndeterminedVal)) (=> (allocated-before d) (= (deref d) (old (deref d)))))
 //@ ensures fresh-copy (and (is result *UndeterminedVal) (fresh (undet result)) (not (= (undet result) nil))
 //@    (fresh (. (undet result) Implicates)) (fresh (. (undet result) Implicants))
 //@    (not (= (. (undet result) Implicates) nil)) (not (= (. (undet result) Implicants) nil))
@@ -229,7 +232,7 @@ package inference
 //@ func (*Engine).ObserveUpstream$3
 //@ prop C06 C03 C05
 //@ requires (and (not (= e nil)) (not (= e.inferredMap nil)) (not (= e.inferredMap.upstreamMapping nil)) (valOK val))
-//@ modifies (map e.inferredMap.upstreamMapping) (obj (implOf e.inferredMap)) (map (. (implOf e.inferredMap) inner)) (elems (. (implOf e.inferredMap) Pairs)) (obj (omPair (implOf e.inferredMap) 0))
+//@ modifies DeterminedVal UndeterminedVal (map e.inferredMap.upstreamMapping) (obj (implOf e.inferredMap)) (map (. (implOf e.inferredMap) inner)) (elems (. (implOf e.inferredMap) Pairs)) (obj (omPair (implOf e.inferredMap) 0))
 //@ ensures continues (= result true)
 //@ ensures snapshot-stored (mapin e.inferredMap.upstreamMapping site)
 //@ ensures snapshot-is-not-an-alias (let ((u (mapget e.inferredMap.upstreamMapping site)))
@@ -350,3 +353,77 @@ package inference
 //@ ensures annotation-determines-its-own-site (and (= (calls "observeSiteExplanation") 1)
 //@    (= (callarg "observeSiteExplanation" 0 1) (call |(*primitivizer).site| e.primitive key isDeep))
 //@    (ite val (is (callarg "observeSiteExplanation" 0 2) TrueBecauseAnnotation) (is (callarg "observeSiteExplanation" 0 2) FalseBecauseAnnotation)))
+
+//@ -- C06: the increment over upstream knowledge. edgeKeys-diff: the diff of two implication lists holds exactly the
+//@ -- keys of the new list that the old list lacks, with the new list's assertions, and the flag says whether any exist.
+//@ define (keyAt m j) (. (idx m.Pairs j) Key)
+//@ define (valAt m j) (. (idx m.Pairs j) Value)
+//@ define (inputsKept newMap oldMap) (and (= (deref newMap) (old (deref newMap))) (= (deref oldMap) (old (deref oldMap))) (= (mapdom newMap.inner) (old (mapdom newMap.inner))) (= (mapvals newMap.inner) (old (mapvals newMap.inner))) (= (mapdom oldMap.inner) (old (mapdom oldMap.inner))) (= (mapvals oldMap.inner) (old (mapvals oldMap.inner)))
+//@    (forall ((j Int)) (=> (omInRange newMap j) (and (= (omPair newMap j) (old (omPair newMap j))) (= (deref (omPair newMap j)) (old (deref (omPair newMap j)))))))
+//@    (forall ((j Int)) (=> (omInRange oldMap j) (and (= (omPair oldMap j) (old (omPair oldMap j))) (= (deref (omPair oldMap j)) (old (deref (omPair oldMap j))))))))
+//@ -- oldStateKept: nothing that existed when the function was entered has been written (m only fixes the types)
+//@ define (oldStateKept m) (and
+//@    (forall ((o (typeof m))) (=> (allocated-before o) (= (deref o) (old (deref o)))))
+//@    (forall ((r (typeof m.inner))) (=> (allocated-before r) (and (= (mapdom r) (old (mapdom r))) (= (mapvals r) (old (mapvals r))) (= (len r) (old (len r))))))
+//@    (forall ((p (typeof (omPair m 0)))) (=> (allocated-before p) (= (deref p) (old (deref p)))))
+//@    (forall ((a Int)) (=> (allocated-before a) (= (rowat m.Pairs a) (old (rowat m.Pairs a))))))
+//@ func inferredValDiff$2
+//@ prop C06 C03
+//@ requires (and (omOK newMap) (omOK oldMap))
+//@ modifies (obj oldMap) (map oldMap.inner) (elems oldMap.Pairs) (obj (omPair oldMap 0))
+//@ ensures inputs-untouched (inputsKept newMap oldMap)
+//@ ensures nothing-old-touched (oldStateKept newMap)
+//@ ensures fresh-list (and (fresh result0) (omOK result0) (not (= result0 newMap)) (not (= result0 oldMap)))
+//@ ensures only-new-keys (forall ((k primitiveSite)) (=> (mapin result0.inner k) (and (mapin newMap.inner k) (not (mapin oldMap.inner k)) (= (. (mapget result0.inner k) Value) (. (mapget newMap.inner k) Value)))))
+//@ ensures all-new-keys (forall ((k primitiveSite)) (=> (and (mapin newMap.inner k) (not (mapin oldMap.inner k))) (mapin result0.inner k)))
+//@ ensures flag-iff-nonempty (= result1 (> (len result0.Pairs) 0))
+//@ assert after:OrderedMap).Store newMap-object-kept (= (deref newMap) (atloop (deref newMap)))
+//@ assert after:OrderedMap).Store newMap-index-kept (and (= (mapdom newMap.inner) (atloop (mapdom newMap.inner))) (= (mapvals newMap.inner) (atloop (mapvals newMap.inner))))
+//@ assert after:OrderedMap).Store newMap-row-kept (= (rowat newMap.Pairs (arrof newMap.Pairs)) (atloop (rowat newMap.Pairs (arrof newMap.Pairs))))
+//@ assert after:OrderedMap).Store newMap-pairs-kept (forall ((j Int)) (=> (omInRange newMap j) (= (deref (omPair newMap j)) (atloop (deref (omPair newMap j))))))
+//@ assert after:OrderedMap).Store oldMap-object-kept (= (deref oldMap) (atloop (deref oldMap)))
+//@ assert after:OrderedMap).Store oldMap-index-kept (and (= (mapdom oldMap.inner) (atloop (mapdom oldMap.inner))) (= (mapvals oldMap.inner) (atloop (mapvals oldMap.inner))))
+//@ assert after:OrderedMap).Store oldMap-row-kept (= (rowat oldMap.Pairs (arrof oldMap.Pairs)) (atloop (rowat oldMap.Pairs (arrof oldMap.Pairs))))
+//@ assert after:OrderedMap).Store oldMap-pairs-kept (forall ((j Int)) (=> (omInRange oldMap j) (= (deref (omPair oldMap j)) (atloop (deref (omPair oldMap j))))))
+//@ loop 0 invariant scanning (and (fresh diff) (omOK diff) (not (= diff newMap)) (not (= diff oldMap)) (omOK newMap) (omOK oldMap)
+//@    (inputsKept newMap oldMap) (oldStateKept newMap)
+//@    (<= -1 rangeindex) (< rangeindex (len newMap.Pairs))
+//@    (forall ((k primitiveSite)) (=> (mapin diff.inner k) (and (mapin newMap.inner k) (not (mapin oldMap.inner k)) (= (. (mapget diff.inner k) Value) (. (mapget newMap.inner k) Value)))))
+//@    (forall ((j Int)) (=> (and (<= 0 j) (<= j rangeindex)) (or (mapin oldMap.inner (keyAt newMap j)) (mapin diff.inner (keyAt newMap j)))))
+//@    (or (isnil diff.Pairs) (fresh diff.Pairs)) (fresh diff.inner)
+//@    (forall ((k primitiveSite)) (=> (mapin diff.inner k) (fresh (mapget diff.inner k))))
+//@    (= diffNonempty (> (len diff.Pairs) 0)))
+
+//@ -- inferredValDiff: the increment that, merged with the old value, yields the new one. Rows of the case table:
+//@ -- equal determined values: nothing new; determined over undetermined: the determined value itself; undetermined
+//@ -- over undetermined: exactly the edges the old value lacks; anything else does not return (panics).
+//@ define (nImplicants v) (. (undet v) Implicants)
+//@ define (nImplicates v) (. (undet v) Implicates)
+//@ define (edgesAreDiff r n o) (and (omOK r) (fresh r)
+//@    (forall ((k primitiveSite)) (= (mapin r.inner k) (and (mapin n.inner k) (not (mapin o.inner k)))))
+//@    (forall ((k primitiveSite)) (=> (mapin r.inner k) (= (. (mapget r.inner k) Value) (. (mapget n.inner k) Value)))))
+//@ func inferredValDiff
+//@ prop C06 C03
+//@ define (keptSinceCall m) (and (= (deref m) (atcall (deref m))) (= (mapdom m.inner) (atcall (mapdom m.inner))) (= (mapvals m.inner) (atcall (mapvals m.inner)))
+//@    (= (rowat m.Pairs (arrof m.Pairs)) (atcall (rowat m.Pairs (arrof m.Pairs)))))
+//@ define (pairsKeptSinceCall m) (forall ((j Int)) (=> (omInRange m j) (= (deref (omPair m j)) (atcall (deref (omPair m j))))))
+//@ assert after:inferredValDiff$2 new-implicants-kept (keptSinceCall (nImplicants newVal))
+//@ assert after:inferredValDiff$2 new-implicants-pairs-kept (pairsKeptSinceCall (nImplicants newVal))
+//@ assert after:inferredValDiff$2 old-implicants-kept (keptSinceCall (nImplicants oldVal))
+//@ assert after:inferredValDiff$2 old-implicants-pairs-kept (pairsKeptSinceCall (nImplicants oldVal))
+//@ assert after:inferredValDiff$2 new-implicates-kept (keptSinceCall (nImplicates newVal))
+//@ assert after:inferredValDiff$2 new-implicates-pairs-kept (pairsKeptSinceCall (nImplicates newVal))
+//@ assert after:inferredValDiff$2 old-implicates-kept (keptSinceCall (nImplicates oldVal))
+//@ assert after:inferredValDiff$2 old-implicates-pairs-kept (pairsKeptSinceCall (nImplicates oldVal))
+//@ assert after:inferredValDiff$2#2 first-diff-kept (keptSinceCall implicants)
+//@ assert after:inferredValDiff$2#2 first-diff-pairs-kept (pairsKeptSinceCall implicants)
+//@ requires (and (valOK newVal) (valOK oldVal))
+//@ modifies (obj (nImplicants oldVal)) (map (. (nImplicants oldVal) inner)) (elems (. (nImplicants oldVal) Pairs)) (obj (omPair (nImplicants oldVal) 0)) (obj (undet result0))
+//@ ensures equal-determined-nothing-new (=> (and (isDet newVal) (isDet oldVal)) (and (not result1) (= (ebVal (detBool newVal)) (ebVal (detBool oldVal)))))
+//@ ensures determined-over-undetermined (=> (and (isDet newVal) (isUndet oldVal)) (and result1 (= result0 newVal)))
+//@ ensures never-undetermined-over-determined (not (and (isUndet newVal) (isDet oldVal)))
+//@ ensures undetermined-diff-shape (=> (and (isUndet newVal) (isUndet oldVal)) (and (isUndet result0) (not (= (undet result0) nil)) (fresh (undet result0))))
+//@ ensures undetermined-diff-implicants (=> (and (isUndet newVal) (isUndet oldVal)) (edgesAreDiff (nImplicants result0) (nImplicants newVal) (nImplicants oldVal)))
+//@ ensures undetermined-diff-implicates (=> (and (isUndet newVal) (isUndet oldVal)) (edgesAreDiff (nImplicates result0) (nImplicates newVal) (nImplicates oldVal)))
+//@ ensures undetermined-diff-flag (=> (and (isUndet newVal) (isUndet oldVal)) (= result1 (or (> (len (. (nImplicants result0) Pairs)) 0) (> (len (. (nImplicates result0) Pairs)) 0))))
+//@ ensures nothing-old-touched (oldStateKept (nImplicants oldVal))
